@@ -141,9 +141,22 @@ def rule_line(chk, prefix="C10", flush=True):
 
 
 def _rule_flush(chk, prefix, f, cfg, writes, flushes, cnt, where):
-    rngf = cfg.count_range(cfg.entry, [cfg.exit], cnt(flushes)) if flushes else (0, 0)
+    # the flush may be skipped only where the stream is known to have pushed the line down already: an exact io.TextIOWrapper in
+    # line-buffering mode (its write() flushes the text layer AND the underlying buffer when the text contains a newline).
+    # write_through only empties the text layer into the BufferedWriter, which keeps the bytes in process memory.
+    skip_edges = set()
+    for t in cfg.live:
+        if t.kind != "test":
+            continue
+        for lab in ("true", "false"):
+            facts = [(unparse(X.for_matching(f, e_)), truth) for e_, truth in X.atomic_facts(X.for_matching(f, t.exprs[0]), lab)]
+            exact = any(truth and txt.replace("self.file", "file") in ("type(file) is TextIOWrapper", "type(file) is io.TextIOWrapper", "file.__class__ is TextIOWrapper") for txt, truth in facts)
+            lb = any(truth and txt.replace("self.file", "file") == "file.line_buffering" for txt, truth in facts)
+            if exact and lb:
+                skip_edges.add((t, lab))
+    rngf = cfg.count_range(cfg.entry, [cfg.exit], cnt(flushes), avoid_edges=skip_edges) if flushes else (0, 0)
     okord = bool(flushes) and cfg.precedes([n for n, c, m in writes], [n for n, c, m in flushes])[0] \
-        and cfg.must_pass([s for n, c, m in writes for s, l in n.succ if l != "exc"], [cfg.exit], [n for n, c, m in flushes])[0]
+        and cfg.must_pass([s for n, c, m in writes for s, l in n.succ if l != "exc"], [cfg.exit], [n for n, c, m in flushes], avoid_edges=skip_edges)[0]
     chk.req(rngf == (1, 1) and okord, "%s.line" % prefix, "FileDestination.__call__:flush-after-write", where,
             good="exactly one flush, after the write, before the call returns",
             fail="self.file.flush() calls per message range %s%s: a returned logging call does not imply the line left the process"
@@ -488,6 +501,31 @@ def rule_rich(chk):
         if isinstance(n, ast.Assign) and isinstance(n.targets[0], ast.Name) and isinstance(n.value, ast.Call) and unparse(n.value.func) == "sys.modules.get":
             optional_mods.add(n.targets[0].id)
     CONCRETE_EXT = set(STD_RICH) | {"datetime.datetime", "uuid.UUID", "enum.Enum", "decimal.Decimal"}
+    REITERABLE = {"Set", "MutableSet", "AbstractSet", "FrozenSet", "ValuesView", "KeysView", "ItemsView", "deque", "Sequence", "MutableSequence", "Collection", "Mapping", "MutableMapping", "OrderedDict"}
+    ONE_SHOT = {"Iterable", "Iterator", "Generator", "Reversible", "object", "Container", "Sized", "Hashable", "Callable"}
+    # table-driven form: `for cls, convert in <module-level tuple of (type, converter) pairs>: if isinstance(o, cls): return convert(o)`
+    table_vars = {}
+    for x in iter_own_nodes(jd.node):
+        if isinstance(x, ast.For) and isinstance(x.target, ast.Tuple) and len(x.target.elts) == 2 and all(isinstance(e_, ast.Name) for e_ in x.target.elts) and isinstance(x.iter, ast.Name):
+            vals_ = [v for v in jd.module.assigns.get(x.iter.id, []) if isinstance(v, (ast.Tuple, ast.List))]
+            if len(vals_) == 1 and all(isinstance(p_, ast.Tuple) and len(p_.elts) == 2 for p_ in vals_[0].elts):
+                table_vars[x.target.elts[0].id] = (x.target.elts[1].id, vals_[0], x)
+    for cv, (fv, table, loop) in table_vars.items():
+        for pair in table.elts:
+            ce, conv = pair.elts
+            r0 = ctx.p.resolve_expr_static(jd.module, None, ce) if isinstance(ce, (ast.Name, ast.Attribute)) else None
+            known_t = bool(r0) and ((r0[0] == "ext" and r0[1] in CONCRETE_EXT) or (r0[0] == "builtin" and r0[1] in ("set", "frozenset", "complex", "bytes", "bytearray")))
+            if not known_t:
+                raise AnalysisError("json_default's table lists `%s`, a class the rule does not know" % unparse(ce))
+            arms += 1
+            # the converter runs on instances of SUBCLASSES too: an unbound method of the listed class bypasses their overrides
+            if isinstance(conv, ast.Attribute) and unparse(conv.value) == unparse(ce) and r0[0] == "ext" and r0[1] in ("datetime.date", "datetime.time"):
+                chk.bad("C10.rich", "json_default:%s-arm-is-faithful" % unparse(ce), "%s:%d" % (jd.module.relpath, pair.lineno),
+                        "the table converts %s values with the unbound method `%s`: isinstance also matches subclasses, and datetime is a subclass of date -- for a datetime (any datetime "
+                        "subclass orjson does not encode natively: pandas.Timestamp, pendulum, user classes; every datetime with the stdlib encoder) date.isoformat() renders the DATE ONLY, "
+                        "silently dropping time, microseconds and offset (o.isoformat() dispatches on the object)" % (unparse(ce), unparse(conv)))
+            elif isinstance(conv, ast.Attribute) and unparse(conv.value) == unparse(ce):
+                raise AnalysisError("json_default's table converts %s with the unbound method %s (dispatch on subclasses not modelled)" % (unparse(ce), unparse(conv)))
     for t in cfg.live:
         if t.kind != "test":
             continue
@@ -504,6 +542,17 @@ def rule_rich(chk):
                     continue  # a class of an optional third-party package (numpy, pandas, ...)
                 r0 = ctx.p.resolve_expr_static(jd.module, jd, ce) if isinstance(ce, (ast.Name, ast.Attribute)) else None
                 concrete = bool(r0) and ((r0[0] == "ext" and r0[1] in CONCRETE_EXT) or (r0[0] == "builtin" and r0[1] in ("set", "frozenset", "complex", "bytes", "bytearray")))
+                refname = str(r0[1]).split(".")[-1] if r0 and r0[0] == "ext" else None
+                if not concrete and refname in REITERABLE:
+                    # a container that can be iterated any number of times: turning it into a list takes nothing away from the application
+                    chk.ok("C10.rich", "json_default:also-converts-re-iterable-container(%s)" % unparse(ce), chk.where(jd, t.lineno), "%s can be iterated again after being logged" % unparse(ce))
+                    if refname in ("Set", "AbstractSet", "MutableSet"):
+                        arms += 1   # covers the documented `set` arm
+                    continue
+                if not concrete and isinstance(ce, ast.Name) and ce.id in table_vars:
+                    continue   # a class taken from a module-level table: decided entry by entry below
+                if not concrete and refname not in ONE_SHOT:
+                    raise AnalysisError("json_default matches `%s`, a class the rule does not know (neither a documented rich type, a re-iterable container nor a one-shot protocol)" % unparse(ce))
                 chk.req(concrete, "C10.rich", "json_default:converts-only-documented-concrete-types(%s)" % unparse(ce), chk.where(jd, t.lineno),
                         good="%s is a documented concrete type" % unparse(ce),
                         fail="json_default now matches `%s`, an open-ended protocol/class outside the documented rich types: arbitrary application objects (e.g. one-shot iterators) are consumed or altered by being logged" % unparse(ce))
